@@ -47,9 +47,14 @@ inductive PC where
   | rWait | rCount
   deriving Repr, DecidableEq
 
+/-- thread operations: `t<k>` Tell message k, `w<i>` one take-and-run-turn attempt, `r` Restart -/
+inductive Op where
+  | tell (m : Nat) | work | restart | bad
+  deriving Repr, DecidableEq
+
 structure Thread where
   pc : Option PC
-  prog : List String
+  prog : List Op
   results : List String   -- reversed
   deriving Repr, DecidableEq
 
@@ -90,16 +95,13 @@ def label : PC → String
 /-- Begin operation `op` in shared state `s`: either it completes at once with a result (no
     schedule point inside), or the thread parks at the operation's first point.
     `t<k>`: Tell checks IsRunning first. `r` is handled by `spawn` (first op only). -/
-def startOp (s : Shared) (op : String) : Sum String PC :=
-  if op.startsWith "t" then
-    match (op.drop 1).toString.toNat? with
-    | some m => if s.running then .inr (.sE0 m) else .inl "err"
-    | none => .inl "bad-op"
-  else if op.startsWith "w" then .inr .wTake
-  else .inl "bad-op"
+def startOp (s : Shared) : Op → Sum String PC
+  | .tell m => if s.running then .inr (.sE0 m) else .inl "err"
+  | .work => .inr .wTake
+  | _ => .inl "bad-op"
 
 /-- advance a thread to the first point of its next operation, completing point-free ops on the way -/
-def nextOp (s : Shared) : List String → List String → Thread
+def nextOp (s : Shared) : List Op → List String → Thread
   | [], res => { pc := none, prog := [], results := res }
   | op :: rest, res =>
     match startOp s op with
@@ -182,20 +184,22 @@ def step (c : Cfg) (tid : Nat) : String × Cfg :=
 
 /-- spawn the threads in tid order; each runs to its first point.  `r` (first op only) performs
     Shutdown before its first point: the actor stops running. -/
-def spawn (s : Shared) : List (List String) → Shared × List Thread
+def spawn (s : Shared) : List (List Op) → Shared × List Thread
   | [] => (s, [])
   | prog :: rest =>
     let (s1, t) :=
       match prog with
-      | "r" :: ops => ({ s with running := false }, ({ pc := some .rWait, prog := ops, results := [] } : Thread))
+      | .restart :: ops => ({ s with running := false }, ({ pc := some .rWait, prog := ops, results := [] } : Thread))
       | _ => (s, nextOp s prog [])
     let (s2, ts) := spawn s1 rest
     (s2, t :: ts)
 
-def init (budget : Nat) (progs : List (List String)) : Cfg :=
-  let s0 : Shared := { sched := .idle, cells := [], rq := 0, running := true, budget := budget,
-                       handled := [], accepted := [], dropped := [], maxIn := 0 }
-  let (s, ts) := spawn s0 progs
+def initShared (budget : Nat) : Shared :=
+  { sched := .idle, cells := [], rq := 0, running := true, budget := budget,
+    handled := [], accepted := [], dropped := [], maxIn := 0 }
+
+def init (budget : Nat) (progs : List (List Op)) : Cfg :=
+  let (s, ts) := spawn (initShared budget) progs
   { sh := s, threads := ts }
 
 def done (c : Cfg) (tid : Nat) : Bool :=
@@ -204,8 +208,17 @@ def done (c : Cfg) (tid : Nat) : Bool :=
   | none => true
 
 /-- the restart op is only supported as the first op of its thread -/
-def wellFormed (progs : List (List String)) : Bool :=
-  progs.all fun p => (p.drop 1).all (· ≠ "r")
+def wellFormed (progs : List (List Op)) : Bool :=
+  progs.all fun p => (p.drop 1).all (· ≠ .restart)
+
+def parseOp (op : String) : Op :=
+  if op = "r" then .restart
+  else if op.startsWith "t" then
+    match (op.drop 1).toString.toNat? with
+    | some m => .tell m
+    | none => .bad
+  else if op.startsWith "w" then .work
+  else .bad
 
 /-! ### sequential completion used for the final digest (worker 0 runs turns until idle) -/
 
@@ -219,7 +232,7 @@ def drainTurns (rounds : Nat) (c : Cfg) : Cfg :=
   | 0 => c
   | r + 1 =>
     let tid := c.threads.length
-    let c1 : Cfg := { c with threads := c.threads ++ [nextOp c.sh ["w0"] []] }
+    let c1 : Cfg := { c with threads := c.threads ++ [nextOp c.sh [.work] []] }
     let c2 := runThread 100000 c1 tid
     let took := match c2.threads[tid]? with | some t => t.results.head? == some "turn" | none => false
     let c3 : Cfg := { c2 with threads := c2.threads.take tid }
